@@ -137,7 +137,10 @@ def split_trace(path, nchunks, outdir, marker='"e":"reset"'):
     """Split an ndjson trace into <= nchunks files at scenario ("reset") boundaries."""
     with open(path) as f:
         lines = f.readlines()
-    starts = [i for i, l in enumerate(lines) if marker in l]
+    if marker is None:
+        starts = list(range(len(lines)))
+    else:
+        starts = [i for i, l in enumerate(lines) if marker in l]
     if not starts:
         starts = [0]
     if starts[0] != 0:
